@@ -348,3 +348,121 @@ func ruleR20f(c *Ctx) {
 	}
 	c.floor("R20f", "cross-kind arms of numeric Equals", 2, n)
 }
+
+// R20g: in package data a string is cut only at a rune boundary known by provenance: the bound is absent,
+// 0, len(..), or the size result of a utf8.Decode* call. (Field names are arbitrary Go identifiers: a
+// constant byte offset splits a multi-byte first letter.)
+func ruleR20g(c *Ctx) {
+	p := c.pkg("data")
+	if p == nil {
+		return
+	}
+	info := p.TypesInfo
+	n := 0
+	for _, f := range p.Syntax {
+		for _, d := range f.Decls {
+			fd, ok := d.(*ast.FuncDecl)
+			if !ok || fd.Body == nil {
+				continue
+			}
+			// objects bound to the size result of utf8.Decode*
+			sizes := map[types.Object]bool{}
+			note := func(lhs []ast.Expr, rhs []ast.Expr) {
+				if len(rhs) != 1 || len(lhs) != 2 {
+					return
+				}
+				call, ok := ast.Unparen(rhs[0]).(*ast.CallExpr)
+				if !ok {
+					return
+				}
+				cal := calleeFunc(call, info)
+				if cal == nil || cal.Pkg() == nil || cal.Pkg().Path() != "unicode/utf8" || !strings.HasPrefix(cal.Name(), "Decode") {
+					return
+				}
+				if id, ok := lhs[1].(*ast.Ident); ok {
+					if o := info.Defs[id]; o != nil {
+						sizes[o] = true
+					} else if o := info.Uses[id]; o != nil {
+						sizes[o] = true
+					}
+				}
+			}
+			assigned := map[types.Object]int{}
+			ast.Inspect(fd.Body, func(x ast.Node) bool {
+				switch s := x.(type) {
+				case *ast.AssignStmt:
+					note(s.Lhs, s.Rhs)
+					for _, l := range s.Lhs {
+						if id, ok := l.(*ast.Ident); ok {
+							if o := info.Defs[id]; o != nil {
+								assigned[o]++
+							} else if o := info.Uses[id]; o != nil {
+								assigned[o]++
+							}
+						}
+					}
+				case *ast.ValueSpec:
+					var lhs []ast.Expr
+					for _, nm := range s.Names {
+						lhs = append(lhs, nm)
+						assigned[info.Defs[nm]]++
+					}
+					note(lhs, s.Values)
+				case *ast.IncDecStmt:
+					if id, ok := s.X.(*ast.Ident); ok {
+						assigned[info.Uses[id]]++
+					}
+				}
+				return true
+			})
+			ord := 0
+			ast.Inspect(fd.Body, func(x ast.Node) bool {
+				se, ok := x.(*ast.SliceExpr)
+				if !ok {
+					return true
+				}
+				tv, ok := info.Types[se.X]
+				if !ok {
+					return true
+				}
+				if b, ok := tv.Type.Underlying().(*types.Basic); !ok || b.Info()&types.IsString == 0 {
+					return true
+				}
+				ord++
+				n++
+				good := true
+				why := ""
+				for _, bd := range []ast.Expr{se.Low, se.High} {
+					if bd == nil {
+						continue
+					}
+					if btv, ok := info.Types[bd]; ok && btv.Value != nil {
+						if v, exact := constant.Int64Val(btv.Value); exact && v == 0 {
+							continue
+						}
+						good, why = false, "the constant byte offset "+exprKey(bd)
+						continue
+					}
+					if call, ok := ast.Unparen(bd).(*ast.CallExpr); ok {
+						if id, ok := call.Fun.(*ast.Ident); ok && id.Name == "len" {
+							if _, isBuiltin := info.Uses[id].(*types.Builtin); isBuiltin {
+								continue
+							}
+						}
+					}
+					if id, ok := ast.Unparen(bd).(*ast.Ident); ok {
+						if o := info.Uses[id]; o != nil && sizes[o] && assigned[o] == 1 {
+							continue
+						}
+					}
+					good, why = false, "the offset "+exprKey(bd)+", which is not the size of a decoded rune"
+				}
+				key := fmt.Sprintf("%s string-cut#%d", c.declKey("data", fd), ord)
+				c.check(good, "R20g", key, se.Pos(), "cut at a rune boundary (bound is 0, len, or the size of a decoded rune)",
+					"the string is cut at "+why+": a name or text that begins with a multi-byte character is split inside it")
+				return true
+			})
+		}
+	}
+	c.floor("R20g", "string cuts in package data", 1, n)
+}
